@@ -859,7 +859,8 @@ impl Callable for LTrim {
         ))?;
 
         let s = blob.to_string();
-        let trimmed = s.trim_start(); // left trim
+        // LTRIM removes leading spaces (not tabs, line breaks or other white space)
+        let trimmed = s.trim_start_matches(' ');
         Ok(DataType::Blob(Blob::from(trimmed)))
     }
 }
@@ -878,7 +879,8 @@ impl Callable for RTrim {
             TypeSystemError::UnexpectedDataType(args[0].kind()),
         ))?;
         let s = blob.to_string();
-        let trimmed = s.trim_end(); // right trim
+        // RTRIM removes trailing spaces (not tabs, line breaks or other white space)
+        let trimmed = s.trim_end_matches(' ');
         Ok(DataType::Blob(Blob::from(trimmed)))
     }
 }
